@@ -237,7 +237,7 @@ func followUps(p *run.Part, check string, failed *seqx.World, twin *seqx.World, 
 
 // ---- (B) tampered sources ----
 
-var c06Faults = []string{"sig-removed", "sig-of-other", "key-removed", "key-of-other-writer", "key-of-destination", "payload-altered", "payload-altered-lenient-provider", "foreign-id", "none"}
+var c06Faults = []string{"sig-removed", "sig-of-other", "key-removed", "key-of-other-writer", "key-of-destination", "payload-altered", "payload-altered-lenient-provider", "foreign-id", "head-without-its-entry", "none"}
 
 type c06Case struct {
 	Config string    `json:"config"`
@@ -339,6 +339,14 @@ func tamperOne(p *run.Part, cfg *seqx.Config, cc c06Case) {
 				}
 			case "foreign-id":
 				c.SetLogID("Y")
+			case "head-without-its-entry":
+				// an inconsistent source: it names this entry as a head but does not hold it
+				if !headSet[c.GetHash().String()] {
+					return
+				}
+				bad = c
+				heads = append(heads, c)
+				continue
 			}
 			bad = c
 		}
@@ -391,6 +399,20 @@ func tamperOne(p *run.Part, cfg *seqx.Config, cc c06Case) {
 	}
 	if pv != nil {
 		p.Violate("tamper", "C06:merge-panic:"+cc.Fault+":"+run.PanicSite(stack), fmt.Sprintf("%s panicked: %v at %s", desc, pv, stack), cc)
+		return
+	}
+	// Whatever the merge answered and whatever the source looked like: every head of the destination is one of its entries.
+	if pv == nil {
+		for _, h := range dst.Heads().Slice() {
+			if _, ok := dst.Get(h.GetHash()); !ok {
+				p.Violate("tamper", "C06:head-not-an-entry:"+cc.Fault, fmt.Sprintf("%s: afterwards the destination has a head it does not hold (merge error: %v)", desc, jerr), cc)
+				return
+			}
+		}
+	}
+	if cc.Fault == "head-without-its-entry" {
+		// nothing else is promised about a source that is not a log
+		p.Add(0, 0, 1, 0)
 		return
 	}
 	// Whatever the merge answered: nothing the destination now shows (Values, Heads, Get) may differ from the
